@@ -483,14 +483,22 @@ fn main() {
         // every second calls-only program runs on a PLAIN Result function with an IMPURE body: thread 0's calls succeed,
         // the other threads' calls fail for the same arguments (C09 under concurrency: an Err is never stored and never
         // disturbs a stored Ok; once an Ok-storing call has returned, later calls are served)
-        let cvar = (pi / 4 + seed as usize) % 3;
-        let result_hot = calls_only && cvar == 1;
+        let cvar = (pi / 4 + seed as usize) % 4;
+        // cvar 3: a recognised Result function WITH a ttl (and an entry limit), entries all EXPIRED at the start, thread 0's
+        // calls succeed and the others' FAIL: a failing call performs the expired-lookup purge and then stores nothing, so a purge
+        // that is not atomic with respect to another thread's complete call (miss, body, store) leaves its damage — a stored key
+        // without queue slot — visible at quiescence (the succeeding variants repair it by re-storing the key)
+        let ttl_result_hot = calls_only && cvar == 3
+            && usable.iter().any(|s| s.ttl.is_some() && s.limit.map(|l| l <= 3).unwrap_or(false) && s.max_mem.is_none() && s.recognised_result && s.is_async == (variant % 2 == 1));
+        let result_hot = (calls_only && cvar == 1) || ttl_result_hot;
         // every third calls-only program runs on a cache with a TTL (and an entry limit) whose entries are all EXPIRED when
         // the threads start: expired-lookup paths (lookup sees the expired entry, drops its read lock, takes the queue mutex
         // and the write lock) race with each other and with the re-stores of the same keys
-        let ttl_hot = calls_only && cvar == 2;
+        let ttl_hot = (calls_only && cvar == 2) || ttl_result_hot;
         let plain_hot = calls_only && cvar == 0 && variant % 2 == 0;
-        let hot_pool: Vec<&md::Spec> = if ttl_hot {
+        let hot_pool: Vec<&md::Spec> = if ttl_result_hot {
+            usable.iter().filter(|s| s.ttl.is_some() && s.limit.map(|l| l <= 3).unwrap_or(false) && s.max_mem.is_none() && s.recognised_result && s.is_async == (variant % 2 == 1)).collect()
+        } else if ttl_hot {
             usable.iter().filter(|s| s.ttl.is_some() && s.limit.map(|l| l <= 3).unwrap_or(false) && s.max_mem.is_none() && !s.is_result && s.is_async == (variant % 2 == 1)).collect()
         } else if result_hot {
             usable.iter().filter(|s| s.limit.is_none() && s.max_mem.is_none() && s.ttl.is_none() && s.recognised_result && s.is_async == (variant % 2 == 1)).collect()
@@ -575,7 +583,8 @@ fn main() {
                 if let Some(ttl) = fns[0].ttl {
                     for j in 0..3 {
                         let (n, ok) = det_val(fns[0].idx, j);
-                        md::rt::NEXT_TL.with(|x| x.set(Some(rt::Next { n, ok, len: 4 + (n % 5) as usize, ci: true, io: false })));
+                        // (a Result function's initial entries must exist: the setup calls succeed)
+                        md::rt::NEXT_TL.with(|x| x.set(Some(rt::Next { n, ok: ok || ttl_result_hot, len: 4 + (n % 5) as usize, ci: true, io: false })));
                         let _ = corpus::CALLS[fns[0].idx](j);
                     }
                     md::rt::NEXT_TL.with(|x| x.set(None));
